@@ -13,6 +13,7 @@ from vlib.common import Sub, Violation, call, close, O
 pyrepseq = boot.import_pyrepseq()
 
 PROPERTY = "C02"
+QUICK_SCALE = 4
 RULE = ("exhaustive: every multiplicity pattern (integer partition) of N=2..12 realised as str / int / float samples in a "
         "deterministic shuffle, and every pair of patterns with N1,N2<=6 under several overlap assignments for the two-sample "
         "form; random: samples up to N=200 (list / tuple / ndarray / Series with arbitrary index), tables of 1-4 columns x 2-40 "
@@ -80,7 +81,12 @@ def check_one(case, rec):
     # pc_n on the multiplicity vector
     mult = list(c.values())
     _same("pc_n-vs-pc", call("pc_n", pyrepseq.pc_n, mult), want, f"pc_n({mult})")
-    _same("pc_n-array", call("pc_n", pyrepseq.pc_n, np.array(mult)), want, f"pc_n(array {mult})")
+    for dt in (np.int64, np.float64):
+        arr = np.array(mult, dtype=dt)
+        _same("pc_n-array", call("pc_n", pyrepseq.pc_n, arr), want, f"pc_n(array {mult})")
+        _same("pc_n-array-again", call("pc_n", pyrepseq.pc_n, arr), want, f"second pc_n on the same {dt.__name__} array object")
+        if arr.tolist() != [dt(x) for x in mult]:
+            raise Violation("pc_n-mutates-input", f"count array changed to {arr.tolist()}")
     # permutation invariance and injective relabelling
     perm = shuffle_det(sample, case.get("salt", 1))
     _same("pc-permutation", call("pc", pyrepseq.pc, contain(perm, cont)), want, "permuted sample")
@@ -179,9 +185,13 @@ def check_table(case, rec):
         c2["rows"] = case["rows2"]
         c2["rows1"] = case["rows"]
         df2 = build_table(c2)
+        if case.get("permute_cols2") and ncol >= 2:
+            # the second table stores the same columns in another order; `on` (and row identity) is by column NAME
+            df2 = df2[list(df2.columns)[::-1]]
         keys2 = row_keys(case, case["rows2"])
         want2 = O.pc_cross_exact(keys, keys2)
-        _same("pc-table-cross", call("pc-table2", pyrepseq.pc, df, df2), want2, "two tables")
+        if not case.get("permute_cols2"):
+            _same("pc-table-cross", call("pc-table2", pyrepseq.pc, df, df2), want2, "two tables")
         _same("pc_joint-cross", call("pc_joint2", pyrepseq.pc_joint, df, names, df2), want2, "pc_joint two tables")
     if not before.equals(df):
         raise Violation("pc-mutates-input", "table changed by pc / pc_joint")
@@ -226,6 +236,7 @@ def table_case(draw, tier="quick"):
             r = list(draw(st.sampled_from(base + rows[:3])))
             rows2.append(r)
         case["rows2"] = rows2
+        case["permute_cols2"] = draw(st.booleans())
     return case
 
 
